@@ -98,6 +98,21 @@ def provenance(space, seen=None):
     return seen
 
 
+def flatten_masks(masks):
+    """Atomic conjunct masks of a list of recorded masks: `a & b` contributes a and b (a restriction by a conjunction is a restriction by each conjunct)."""
+    out = []
+    todo = list(masks)
+    while todo:
+        m = todo.pop(0)
+        if m is None:
+            continue
+        if m[0] == 'BitAnd' and (isinstance(m[1], tuple) or isinstance(m[2], tuple)):
+            todo[:0] = [x for x in (m[1], m[2]) if isinstance(x, tuple)]
+        else:
+            out.append(m)
+    return out
+
+
 def mask_text(m):
     if m is None:
         return ''
